@@ -28,11 +28,14 @@ struct Stats {
     std::map<std::string, double> extra;
     size_t max_hashes = 4000000;
     bool shrinking = false;   // set once a failure has been seen: further evaluations are shrink steps
+    uint64_t last_digest = 0; // transcript digest of the last case (written to --digest)
+    FILE *digest_file = nullptr;
 
     void count(const std::string &cls, uint64_t n = 1) { if (!shrinking) classes[cls] += n; }
     void case_done(const std::string &serialised, bool is_nontrivial) {
         if (shrinking) return;
         ++evaluations;
+        if (digest_file) { uint64_t rec[2] = {fnv64(serialised), last_digest}; fwrite(rec, 8, 2, digest_file); }
         if (is_nontrivial) {
             if (nontrivial.size() < max_hashes) nontrivial.insert(fnv64(serialised));
             if (samples.size() < 3 && (evaluations % 97 == 1 || samples.empty())) samples.push_back(serialised.substr(0, 700));
@@ -190,7 +193,7 @@ static inline int skv_main(int argc, char **argv, Harness &h) {
         g_current_case = ser(p);
         std::string r = h.run(p, st);
         if (!r.empty()) { printf("SKV-FAIL: %s\n", r.c_str()); return 1; }
-        printf("SKV-PASS\n");
+        printf("SKV-PASS digest=%016llx\n", (unsigned long long)st.last_digest);
         return 0;
     }
     if (mode != "gen") { fprintf(stderr, "usage: %s gen|replay|selftest ...\n", argv[0]); return 2; }
@@ -204,12 +207,15 @@ static inline int skv_main(int argc, char **argv, Harness &h) {
         signal(SIGFPE, crash_handler); signal(SIGABRT, crash_handler);
         if (__sanitizer_set_death_callback) __sanitizer_set_death_callback(sanitizer_death);
     }
+    if (kv.count("digest")) st.digest_file = fopen(kv["digest"].c_str(), "wb");
+    long dump_index = kv.count("dump-index") ? atol(kv["dump-index"].c_str()) : -1;
     std::string last_fail, last_msg;
     auto gen = h.gen();
     bool ok = rc::check([&]() {
         Program p = *gen;
         g_current_case = ser(p);
         crash_note_case();
+        if (dump_index >= 0 && (long)st.evaluations == dump_index && kv.count("dump-path")) write_file(kv["dump-path"], g_current_case);
         std::string r = h.run(p, st);
         if (!r.empty()) {
             st.shrinking = true;
@@ -218,6 +224,7 @@ static inline int skv_main(int argc, char **argv, Harness &h) {
         }
     });
     if (!out.empty()) { st.dump(out); st.dump_hashes(out + ".hashes"); }
+    if (st.digest_file) { fclose(st.digest_file); st.digest_file = nullptr; }
     if (g_crash_fd >= 0) { close(g_crash_fd); g_crash_fd = -1; unlink(g_crash_path); }
     if (!ok) {
         if (last_fail.empty()) { fprintf(stderr, "SKV-INFRA: rapidcheck reported failure without a failing case (gave up / generator error)\n"); return 2; }
